@@ -540,7 +540,6 @@ def gen_case(rng):
     # ---------------------------------------------------------------- pages, box pages, custom maps
     sections = []          # (name, [lines])
     link_targets = []      # (page id, [valid anchors])
-    present = {c: any(e.ctl == c for e in main.live_entries()) for c in 'bcgstuw'}
     map_members = {}       # map id -> [entry addresses] for maps that are written
     map_overrides = {}
     for map_id, types in MAP_TYPES.items():
